@@ -19,6 +19,12 @@ def main():
     beh_b = beh_b[run.seed % step::step] + [b for b in emit_sim(run, "MC_BigBed", "MC_BigBed_deep.cfg", 2000 if run.thorough else 250)
                                              if not any(it[1] == 0 and it[2] == 0 for it in b["items"])]
     cases = make_cases(beh_w, "bw", sizes, run) + make_cases(beh_b, "bb", sizes, run)
+    # more chromosomes than the usual block size of the chromosome tree (256)
+    for kind in ("bw", "bb"):
+        nch = 300
+        cases.append({"kind": kind, "chroms": [50] * nch, "items": [[c, c % 7, c % 7 + 1 + c % 3, 1 + (c % 3 if kind == "bw" else 0)] for c in range(1, nch + 1)],
+                      "vmap": "int", "allq": 0, "zq": 0, "mz": [], "msum": {"bases": 0, "sum": 0, "sumsq": 0, "min": 0, "max": 0, "int": 1}, "scale": 1, "asq": "bed3", "long": 0,
+                      "opts": {"ips": 2, "bs": 256, "zooms": [8], "zmode": "manual", "compress": 1, "inmem": 1, "rt": "multi", "threads": 2, "pass": 1 + (kind == "bb"), "chan": 100, "sort": "all"}})
     COLS = ["1", "+", "g\u00e9ne", "0,0,255", "\u540d\u524d", "x y", ".", "-7", "a;b", "100"]
 
     def rest_cols(i):      # the harness's "cols" rest-of-line: k<i> plus (i mod 21) extra tab separated UTF-8 columns
